@@ -33,6 +33,8 @@ type Program struct {
 	Timings  map[string]float64
 	NumFuncs int // repository functions with SSA bodies
 	WithCG   bool
+	Renames  []Rename // unexported identifiers spelled back to their reference names (see rename.go)
+	RenameNote string
 }
 
 // brokenf reports a failure of the machinery itself (not a violation).
@@ -67,6 +69,38 @@ func Load(dir string, withTests bool, withCG bool) *Program {
 	}
 	if len(initial) == 0 {
 		brokenf("no packages loaded from %s", dir)
+	}
+	// rename normalisation (rename.go): when unexported identifiers were
+	// renamed with respect to the reference table, analyse the
+	// alpha-equivalent program that spells them the old way
+	if os.Getenv("CLUSTERLINT_NO_RENAME") == "" {
+		var repoPkgs []*packages.Package
+		packages.Visit(initial, nil, func(pkg *packages.Package) {
+			if isRepoPath(pkg.PkgPath) && pkg.PkgPath != controlsPath && !strings.HasSuffix(pkg.ID, ".test") && len(pkg.Errors) == 0 {
+				repoPkgs = append(repoPkgs, pkg)
+			}
+		})
+		if rs := detectRenames(repoPkgs); len(rs) > 0 {
+			pos := renamePositions(cfg.Fset, repoPkgs, rs)
+			cfg2 := &packages.Config{Fset: token.NewFileSet(), Mode: cfg.Mode, Dir: dir, Env: env, Tests: withTests, ParseFile: renamingParser(pos)}
+			initial2, err2 := packages.Load(cfg2, "./...")
+			bad := ""
+			if err2 != nil {
+				bad = err2.Error()
+			} else {
+				packages.Visit(initial2, nil, func(pkg *packages.Package) {
+					if isRepoPath(pkg.PkgPath) && !strings.HasSuffix(pkg.ID, ".test") && len(pkg.Errors) > 0 && bad == "" {
+						bad = pkg.PkgPath + ": " + pkg.Errors[0].Msg
+					}
+				})
+			}
+			if bad == "" {
+				initial, cfg = initial2, cfg2
+				p.Renames = rs
+			} else {
+				p.RenameNote = fmt.Sprintf("%d renamed identifiers detected but the normalised program does not type-check (%s): analysed as written", len(rs), bad)
+			}
+		}
 	}
 	p.Fset = cfg.Fset
 	p.Timings["load_s"] = time.Since(t0).Seconds()
